@@ -145,11 +145,17 @@ class ProbeMixin:
         pre = [(o.order_id, o.is_buy, key(o), o.volume) for o in list(self.buy_order_book.priority_queue) + list(self.sell_order_book.priority_queue)]
         objs = list(self.buy_order_book.priority_queue) + list(self.sell_order_book.priority_queue)
         vol0 = [o.volume for o in objs]
-        ls = super()._execution()
+        try:
+            ls = super()._execution()
+        except Exception as e:  # noqa
+            W.rec("round_raised", self.market_id, running, "%s: %s" % (type(e).__name__, str(e)[:100]))
+            raise
         # what really left the book in this round: the volume each resting order lost
         delta = {(o.is_buy, o.order_id): v0 - o.volume for o, v0 in zip(objs, vol0) if v0 != o.volume}
         W.rec("round", self.market_id, ls, running,
-              dict(mp=self.get_market_price(), mp0=self.get_market_price(0), running_after=self._is_running, t=self.time, pre=pre, delta=delta))
+              dict(mp=self.get_market_price(), mp0=self.get_market_price(0), running_after=self._is_running, t=self.time, pre=pre, delta=delta,
+                   post=(min([key(o) for o in self.buy_order_book.priority_queue], default=None),
+                         min([key(o) for o in self.sell_order_book.priority_queue], default=None))))
         return ls
 
     def _update_time(self, *a, **k):
@@ -370,7 +376,14 @@ class LayeredRecLogger(_TradeHandlers):
         W.rec("lh", log)
 
 
-LOGGERS = {"rec": RecLogger, "sized": SizedRecLogger, "none": lambda: None, "layered": LayeredRecLogger}
+class WriteOnlyRecLogger(RecLogger):
+    """a user logger that hooks the one door the library delivers records through, `write` (and the direct variant), and
+    leaves `bulk_write` as inherited from the library: a record that reaches the logger by that other door is not seen
+    arriving"""
+    bulk_write = Logger.bulk_write
+
+
+LOGGERS = {"rec": RecLogger, "sized": SizedRecLogger, "none": lambda: None, "layered": LayeredRecLogger, "writeonly": WriteOnlyRecLogger}
 
 HOOK_KINDS = [("order", True), ("order", False), ("cancel", True), ("cancel", False), ("execution", False),
               ("session", True), ("session", False), ("market", True), ("market", False)]
